@@ -81,6 +81,7 @@ def edit_torrent(metafile: str, args: dict) -> dict:
     logger.debug("editing torrent file %s", metafile)
     meta = pyben.load(metafile)
     info = meta["info"]
+    keys = list(info)
     filter_empty(args, meta, info)
 
     if "comment" in args:
@@ -116,7 +117,10 @@ def edit_torrent(metafile: str, args: dict) -> dict:
         elif isinstance(val, list):
             meta["httpseeds"] = val
 
+    if list(info) != keys:
+        info = dict(sorted(info.items()))
     meta["info"] = info
+    meta = dict(sorted(meta.items()))
     os.remove(metafile)
     pyben.dump(meta, metafile)
     return meta
